@@ -451,4 +451,156 @@ theorem parseMmlLoop_items (items : List Item) (e : List Nat) (col : Nat) (he : 
       simp at hb
       rw [hfr b hb.2, hlk12 b hb.1]
 
+/-! ### the spelling of a covered command never contains `/`, `;`, `}` or NUL -/
+
+theorem num_bytes_range (n : Num) : ∀ x ∈ n.bytes, x = 36 ∨ x = 45 ∨ (48 ≤ x ∧ x ≤ 57) ∨ (97 ≤ x ∧ x ≤ 102) := by
+  intro x hx
+  unfold Num.bytes at hx
+  simp only [List.mem_append] at hx
+  rcases hx with (hx | hx) | hx
+  · split at hx <;> simp at hx
+    exact Or.inl hx
+  · split at hx <;> simp at hx
+    exact Or.inr (Or.inl hx)
+  · obtain ⟨base, hbase⟩ : ∃ base, base = (if n.hex then 16 else 10) := ⟨_, rfl⟩
+    rw [← hbase] at hx
+    have hb : 2 ≤ base ∧ base ≤ 16 := by rw [hbase]; split <;> omega
+    have hsp := natDigits_spec base hb.1 (n.v.natAbs + 1) n.v.natAbs (by omega)
+    rw [renderNat_eq] at hx
+    obtain ⟨d, hd, rfl⟩ := List.mem_map.mp hx
+    have := digitChar_range d (by have := hsp.2.1 d hd; omega)
+    omega
+
+theorem dur_bytes_range (d : Dur) : ∀ x ∈ d.bytes, x = 36 ∨ x = 45 ∨ x = 46 ∨ x = 58 ∨ (48 ≤ x ∧ x ≤ 57) ∨ (97 ≤ x ∧ x ≤ 102) := by
+  intro x hx
+  cases d with
+  | dflt k =>
+    simp [Dur.bytes, MmlMeaning.dotsBytes] at hx
+    omega
+  | len n k =>
+    simp [Dur.bytes, MmlMeaning.dotsBytes] at hx
+    rcases hx with hx | hx
+    · have := num_bytes_range n x hx; omega
+    · omega
+  | frames n k =>
+    simp [Dur.bytes, MmlMeaning.dotsBytes] at hx
+    rcases hx with hx | hx | hx
+    · omega
+    · have := num_bytes_range n x hx; omega
+    · omega
+
+theorem clean_of_range (l : List Nat) (h : ∀ x ∈ l, (33 ≤ x ∧ x < 128) ∧ x ≠ 47 ∧ x ≠ 59 ∧ x ≠ 125) : Clean l := by
+  intro x hx
+  have := h x hx
+  omega
+
+/-- the spelling of a command of C05's subset is clean -/
+theorem covered_clean (c : Cmd) (hc : Covered c) : Clean c.bytes := by
+  apply clean_of_range
+  intro x hx
+  have hnum : ∀ n : Num, x ∈ n.bytes → (33 ≤ x ∧ x < 128) ∧ x ≠ 47 ∧ x ≠ 59 ∧ x ≠ 125 := fun n h => by
+    have := num_bytes_range n x h; omega
+  have hdur : ∀ d : Dur, x ∈ d.bytes → (33 ≤ x ∧ x < 128) ∧ x ≠ 47 ∧ x ≠ 59 ∧ x ≠ 125 := fun d h => by
+    have := dur_bytes_range d x h; omega
+  cases c with
+  | note l a d =>
+    have hl : l < 8 := hc
+    simp only [Cmd.bytes, List.mem_cons, List.mem_append] at hx
+    rcases hx with (rfl | hx) | hx
+    · unfold MmlMeaning.letterByte; omega
+    · cases a <;> simp [Acc.bytes] at hx <;> omega
+    · exact hdur d hx
+  | rest d =>
+    simp only [Cmd.bytes, List.mem_cons] at hx
+    rcases hx with rfl | hx
+    · omega
+    · exact hdur d hx
+  | tie d =>
+    simp only [Cmd.bytes, List.mem_cons] at hx
+    rcases hx with rfl | hx
+    · omega
+    · exact hdur d hx
+  | length d =>
+    simp only [Cmd.bytes, List.mem_cons] at hx
+    rcases hx with rfl | hx
+    · omega
+    · exact hdur d hx
+  | octave n =>
+    simp only [Cmd.bytes, List.mem_cons] at hx
+    rcases hx with rfl | hx
+    · omega
+    · exact hnum n hx
+  | quantize n =>
+    simp only [Cmd.bytes, List.mem_cons] at hx
+    rcases hx with rfl | hx
+    · omega
+    · exact hnum n hx
+  | early n =>
+    simp only [Cmd.bytes, List.mem_cons] at hx
+    rcases hx with rfl | hx
+    · omega
+    · exact hnum n hx
+  | measure n =>
+    simp only [Cmd.bytes, List.mem_cons] at hx
+    rcases hx with rfl | hx
+    · omega
+    · exact hnum n hx
+  | shuffle n =>
+    simp only [Cmd.bytes, List.mem_cons] at hx
+    rcases hx with rfl | hx
+    · omega
+    · exact hnum n hx
+  | slur => simp [Cmd.bytes] at hx; omega
+  | octUp => simp [Cmd.bytes] at hx; omega
+  | octDown => simp [Cmd.bytes] at hx; omega
+  | _ => exact absurd hc (by simp [Covered])
+
+/-- the spelling of every covered command is clean: inside the covered subset the first face of
+D16 (a `/`, `;` or `}` inside an alternative) cannot occur -/
+theorem lcovered_clean (c : Cmd) (hc : LCovered c) : Clean c.bytes := by
+  rcases lcovered_cases c hc with ⟨sm, n, rfl⟩ | ⟨n, rfl⟩ | hcov
+  · apply clean_of_range
+    intro x hx
+    have hnum : ∀ n : Num, x ∈ n.bytes → (33 ≤ x ∧ x < 128) ∧ x ≠ 47 ∧ x ≠ 59 ∧ x ≠ 125 := fun n h => by
+      have := num_bytes_range n x h; omega
+    cases sm <;> rcases n with _ | n <;> simp only [LCovered, evClass, covSimple] at hc <;> try exact absurd hc id
+    all_goals
+      simp only [Cmd.bytes, MmlMeaning.Simple.spellingBytes, MmlMeaning.optNumBytes, List.mem_append, List.mem_cons, List.mem_nil_iff, or_false] at hx
+      first
+      | (subst hx; omega)
+      | (rcases hx with rfl | hx
+         · omega
+         · exact hnum _ hx)
+  · apply clean_of_range
+    intro x hx
+    simp only [Cmd.bytes, List.mem_cons] at hx
+    rcases hx with rfl | hx
+    · omega
+    · have := num_bytes_range n x hx; omega
+  · exact covered_clean c hcov
+
+/-- an alternative made of blanks, bars and covered commands is clean -/
+theorem clean_alt (a : List Tok) (hb : ∀ b, Tok.blank b ∈ a → b = 32 ∨ b = 9) (hcov : ∀ c ∈ cmdsOf a, LCovered c) : Clean (altText a) := by
+  induction a with
+  | nil => intro x hx; simp [altText, toksText] at hx
+  | cons t ts ih =>
+    have ih' := ih (fun b hb' => hb b (by simp [hb']))
+    intro x hx
+    simp only [altText, toksText, List.mem_append] at hx
+    cases t with
+    | blank b =>
+      rcases hx with hx | hx
+      · simp [Tok.bytes] at hx
+        have := hb b (by simp)
+        omega
+      · exact ih' hcov x hx
+    | bar =>
+      rcases hx with hx | hx
+      · simp [Tok.bytes] at hx; omega
+      · exact ih' hcov x hx
+    | cmd c =>
+      rcases hx with hx | hx
+      · exact lcovered_clean c (hcov c (by simp [cmdsOf])) x hx
+      · exact ih' (fun c' hc' => hcov c' (by simp [cmdsOf, hc'])) x hx
+
 end Ctrmml.Mml
